@@ -21,6 +21,7 @@ import ClairModel.Proofs.OsRelease
 import ClairModel.Proofs.PyMeta
 import ClairModel.Proofs.RpmPkg
 import ClairModel.Proofs.GoBin
+import ClairModel.Proofs.Jar
 
 -- every variable of a property statement is bound explicitly: a misspelt name is an error, not a new variable
 set_option autoImplicit false
@@ -664,5 +665,157 @@ example : (toPackages ⟨"go1.21.5 X:boringcrypto".toList, "example.com/app".toL
   decide
 
 end gobin
+
+/-! ## java archives (java/jar Parse) -/
+
+section jar
+open ClairModel.Jar
+open ClairModel.OsRelease (joinNl NotEndsWith)
+
+/-- pom.properties as Maven writes it — the three `key=value` lines once each in
+    any order, any lines that are no assignment of these keys (comments, empty
+    lines, other keys) before, between and after them — states exactly
+    `groupId:artifactId` and the version. Hypotheses the proof forced: the
+    values are not empty, the three lines carry no white space at their ends
+    (the parser trims the line, not the value). -/
+theorem jar_pom_properties_exact (vals : Key → Bytes) (k1 k2 k3 : Key) (n0 n1 n2 n3 : List Bytes)
+    (d12 : k1 ≠ k2) (d13 : k1 ≠ k3) (d23 : k2 ≠ k3)
+    (hne : ∀ k, vals k ≠ [])
+    (hn0 : ∀ l ∈ n0, Neutral l) (hn1 : ∀ l ∈ n1, Neutral l) (hn2 : ∀ l ∈ n2, Neutral l)
+    (ht : ∀ k, Apk.trimSpace (keyLine k (vals k)) = keyLine k (vals k))
+    (hc : ∀ l ∈ n0 ++ keyLine k1 (vals k1) :: (n1 ++ keyLine k2 (vals k2) :: (n2 ++ keyLine k3 (vals k3) :: n3)),
+            10 ∉ l ∧ NotEndsWith 13 l) :
+    parseProperties (joinNl (n0 ++ keyLine k1 (vals k1) :: (n1 ++ keyLine k2 (vals k2) :: (n2 ++ keyLine k3 (vals k3) :: n3)))) =
+      some (vals .group ++ 58 :: vals .artifact, vals .version) := by
+  unfold parseProperties
+  rw [OsRelease.scanLines_joinNl _ hc]
+  have h3 := propsLoop_three k1 k2 k3 (vals k1) (vals k2) (vals k3) n0 n1 n2 n3 d12 d13 d23
+    (hne k1) (hne k2) (hne k3) hn0 hn1 hn2 (ht k1) (ht k2) (ht k3)
+  simp only [Gav.empty] at h3
+  simp only [h3]
+  have e1 := hne .group
+  have e2 := hne .artifact
+  have e3 := hne .version
+  cases k1 <;> cases k2 <;> cases k3 <;>
+    first
+    | exact absurd rfl d12
+    | exact absurd rfl d13
+    | exact absurd rfl d23
+    | simp [Key.set, Gav.complete, e1, e2, e3]
+
+/-- Sanity: the hypotheses hold for a file with a comment, the keys in Maven's
+    order and an m2e line. -/
+example : parseProperties (Jar.asc "#Generated by Maven\nversion=3.12.0\ngroupId=org.apache.commons\nartifactId=commons-lang3\nm2e.projectName=x\n") =
+    some (Jar.asc "org.apache.commons:commons-lang3", Jar.asc "3.12.0") := by decide
+
+/-- An unpopulated pom.properties (a key missing) states nothing, and then none
+    of the archive's pom.properties files is used. -/
+example : parseProperties (Jar.asc "groupId=g\nartifactId=a\n") = none := by decide
+
+/-- A manifest whose main section is a written stanza (fields with any legal
+    keys, separators and continuation lines, each line ended by a newline) and
+    nothing after it: the parser decides on exactly the written fields. -/
+theorem jar_manifest_main_section_exact (fs : List Field) (hw : ∀ f ∈ fs, f.WF) (data : Bytes)
+    (hd : data = joinLines (fieldsLines fs)) (hn : index data sNameHeader = none) :
+    parseManifest data = manifestOfHeader (hdrOf fs) :=
+  parseManifest_stanza fs hw data hd hn
+
+/-- The same when per-entry sections follow, with or without an empty line in
+    between (both occur in the wild): only the main section counts. -/
+theorem jar_manifest_with_sections_exact (fs : List Field) (hw : ∀ f ∈ fs, f.WF) (data : Bytes) (i : Nat)
+    (hn : index data sNameHeader = some i)
+    (hd : data.take (i + 1) = joinLines (fieldsLines fs) ∨ data.take (i + 1) = joinLines (fieldsLines fs) ++ [10]) :
+    parseManifest data = manifestOfHeader (hdrOf fs) :=
+  parseManifest_sections fs hw data i hn hd
+
+/-- Priority lists: the first attribute of the list whose value is not empty
+    and has no space decides; earlier ones that are empty or carry a
+    presentation text are passed over, later ones are not looked at. -/
+theorem jar_manifest_first_usable (h : Hdr) (pre : List String) (k : String) (post : List String)
+    (hpre : ∀ p ∈ pre, usable h p = false) (hk : usable h k = true) :
+    firstUsable h (pre ++ k :: post) = usableValue h k := by
+  induction pre with
+  | nil => simp [firstUsable, hk]
+  | cons p ps ih =>
+    simp only [List.cons_append, firstUsable, hpre p (List.mem_cons_self ..)]
+    exact ih (fun q hq => hpre q (List.mem_cons_of_mem _ hq))
+
+/-- The version is the first non-empty one of the version attributes, spaces or not. -/
+theorem jar_manifest_first_version (h : Hdr) (pre : List String) (k : String) (post : List String)
+    (hpre : ∀ p ∈ pre, mget h p = []) (hk : mget h k ≠ []) :
+    firstNonEmpty h (pre ++ k :: post) = mget h k := by
+  induction pre with
+  | nil =>
+    have : (mget h k).isEmpty = false := by cases hm : mget h k with
+      | nil => exact absurd hm hk
+      | cons _ _ => rfl
+    simp [firstNonEmpty, this]
+  | cons p ps ih =>
+    simp only [List.cons_append, firstNonEmpty, hpre p (List.mem_cons_self ..)]
+    exact ih (fun q hq => hpre q (List.mem_cons_of_mem _ hq))
+
+set_option maxRecDepth 20000 in
+/-- Sanity: an OSGi bundle's manifest (`Bundle-SymbolicName` with a directive,
+    a presentation title with spaces), per-entry sections after it. -/
+example : parseManifest (Jar.asc "Manifest-Version: 1.0\r\nImplementation-Title: Commons Lang\r\nBundle-SymbolicName: org.x.lang3;singleton:=true\r\nBundle-Name: lang3\r\nBundle-Version: 3.12\r\n\r\nName: x\r\nBundle-Version: 0\r\n") =
+    .ok (Jar.asc "org.x.lang3:lang3") (Jar.asc "3.12") := by decide
+
+/-- `<artifact>-<version>.jar`: any artifact of printable characters, a version
+    that starts with a digit, consists of letters, digits, dots and dashes and
+    holds no dash followed by a digit, is read back as written. -/
+theorem jar_file_name_exact (a v : Bytes) (d : Nat) (w : Bytes) (ha : a ≠ []) (hag : ∀ c ∈ a, isGraph c = true)
+    (hv : v = d :: w) (hd : isDigitB d = true) (hw : ∀ c ∈ w, verChar c = true)
+    (hnd : NoDashDigit (v ++ sDotJar)) :
+    checkName (a ++ 45 :: (v ++ sDotJar)) = some (a, v) :=
+  checkName_written a v d w ha hag hv hd hw hnd
+
+/-- The hypothesis about the dash is needed: `x-1.0-2.jar` is read as artifact
+    `x-1.0`, version `2` (Maven would say `x`, `1.0-2`). -/
+theorem jar_file_name_dash_digit_counterexample :
+    checkName (Jar.asc "x-1.0-2.jar") = some (Jar.asc "x-1.0", Jar.asc "2") := by decide
+
+/-- pom.properties files win: with `META-INF` present and every member called
+    pom.properties populated, the archive is reported as exactly these Maven
+    coordinates, in member order, whatever the manifest and the name say. -/
+theorem jar_maven_identity (base : Bytes) (ms : List Node) (infos : List (Bytes × Bytes))
+    (hm : hasMetaInf ms = true) (hp : hasProps ms = true) (hc : collectProps ms = some infos) :
+    own base ms = some (infos.map fun nv => ⟨nv.1, nv.2, .maven, none⟩) := by
+  simp [own, extractProperties, hm, hp, hc]
+
+/-- Without pom.properties the manifest's main section decides. -/
+theorem jar_manifest_identity (base : Bytes) (ms : List Node) (d n v : Bytes)
+    (hm : hasMetaInf ms = true) (hp : hasProps ms = false) (hf : findManifest ms = some d)
+    (hpm : parseManifest d = .ok n v) :
+    own base ms = some [⟨n, v, .jar, none⟩] := by
+  simp [own, extractProperties, hm, hp, manifestStep, hf, hpm]
+
+/-- A manifest that says nothing useful (or fails the sanity checks) leaves
+    the file name. -/
+theorem jar_name_identity (base : Bytes) (ms : List Node) (d : Bytes)
+    (hm : hasMetaInf ms = true) (hp : hasProps ms = false) (hf : findManifest ms = some d)
+    (hpm : parseManifest d = .insane ∨ parseManifest d = .unpopulated) :
+    own base ms = some (nameStep base) := by
+  rcases hpm with hpm | hpm <;> simp [own, extractProperties, hm, hp, manifestStep, hf, hpm]
+
+/-- No `META-INF` at all: not a jar — nothing is reported for it, the archives
+    bundled in it included (unless its name starts with `javax`). -/
+theorem jar_without_metainf_not_reported (path : Bytes) (ms : List Node)
+    (hm : hasMetaInf ms = false) (hj : isPrefix sJavax (lastComp path) = false) :
+    scan path ms = [] := by
+  simp [scan, maxNesting, parse, own, extractProperties, hm, hj]
+
+/-- What is reported for an archive: what it says about itself, then, for
+    every bundled archive in member order, what that one reports — marked with
+    the member it came from (whose SHA-1 becomes the RepositoryHint). -/
+theorem jar_bundled_archives_reported (path : Bytes) (ms : List Node) (is : List Info)
+    (ho : own (lastComp path) ms = some is) :
+    scan path ms = is ++ innerWith (parse 6 false) true ms := by
+  simp [scan, maxNesting, parse, ho]
+
+/-- The nesting limit: at the eighth level an archive is still identified,
+    what is bundled in it is not examined. -/
+theorem jar_nesting_limit (top : Bool) (base : Bytes) (ms : List Node) : parse 0 top base ms = own base ms := rfl
+
+end jar
 
 end ClairModel.Props.C02
